@@ -294,6 +294,50 @@ fn mpqs_poly(a: &[&str]) -> Option<String> {
     Some(out)
 }
 
+/// mpqs_block n k fbsize mm dbase dstride maxpolys
+/// `sieve_for_polys(n, dbase, dstride)` with a real width, then the first `maxpolys` polynomials through the real
+/// `mpqs_poly` (hook `vh_poly_block`: chunks of 16, one batch inversion per chunk, one workspace reused, roots computed at
+/// their real call site with `dinv_modp[idx]` and the real start offset, followed by the real sieve of the polynomial).
+/// The polynomial itself is printed by calling `make_poly` again on the same `(d, r)` (deterministic).
+fn mpqs_block(a: &[&str]) -> Option<String> {
+    let [n, k, fbsize, mm, dbase, dstride, maxpolys] = a else {
+        return None;
+    };
+    let nk = uint_of(n)? * Uint::from(u32_of(k)?);
+    let fb = FBase::new(Int::cast_from(nk), fbsize.parse().ok()?);
+    let mm: i64 = mm.parse().ok()?;
+    let dbase: u128 = dbase.parse().ok()?;
+    let dstride: usize = dstride.parse().ok()?;
+    let maxpolys: usize = maxpolys.parse().ok()?;
+    let mut out = header(&nk, &fb);
+    let so = -mm / 2;
+    write!(out, " mm={mm} so={so} dbase={dbase} dstride={dstride} |").unwrap();
+    let res = catch_unwind(AssertUnwindSafe(|| {
+        let drs = mpqs::sieve_for_polys(&nk, dbase, dstride);
+        write!(
+            out,
+            " drs={}",
+            if drs.is_empty() {
+                "-".to_string()
+            } else {
+                drs.iter().map(|(d, r)| format!("{d}:{r}")).collect::<Vec<_>>().join(",")
+            }
+        )
+        .unwrap();
+        let polys = mpqs::verif_hooks_block::vh_poly_block(&nk, &fb, mm, dbase, dstride, maxpolys);
+        for (d, r, r1, r2) in polys {
+            let pol = mpqs::make_poly(&nk, d, &r);
+            let (pa, pb, pc, bb, pd, dinv) = mpqs::verif_hooks_poly::vh_poly_fields(&pol);
+            let roots: Vec<(u32, u32)> = r1.iter().cloned().zip(r2.iter().cloned()).collect();
+            write!(out, " M {pa} {pb} {pc} {bb} {pd} {dinv} roots={}", pairs(&roots)).unwrap();
+        }
+    }));
+    if res.is_err() {
+        out += " panic";
+    }
+    Some(out)
+}
+
 /// mpqs_batchinv n k fbsize d1,d2,...   (at most 16 values, as in process_poly_block)
 fn mpqs_batchinv(a: &[&str]) -> Option<String> {
     let [n, k, fbsize, ds] = a else {
@@ -326,7 +370,13 @@ fn qs_roots(a: &[&str]) -> Option<String> {
     let mut out = header(&nk, &fb);
     out += " |";
     let res = catch_unwind(AssertUnwindSafe(|| {
-        let (nsqrt, n2mn, odds, mods, nblocks, fwd, bck) = qsieve::verif_hooks_poly::vh_qs_roots(&nk, &fb);
+        let (nsqrt, n2mn, odds, mods, nblocks, fwd0, bck) = qsieve::verif_hooks_poly::vh_qs_roots(&nk, &fb);
+        // forward roots as the real set-up loop leaves them (`init_sieve_for_test` runs the loop of `qsieve()` for
+        // the forward sieve); they must agree with the per-prime calls of the hook
+        let qs = qsieve::SieveQS::new(nk, &fb, 0, false);
+        let (_sieve, [f1, f2]) = qs.init_sieve_for_test();
+        let fwd: Vec<(u32, u32)> = f1.iter().cloned().zip(f2.iter().cloned()).collect();
+        assert!(fwd == fwd0, "init_sieve_for_test disagrees with prepare_prime_fwd");
         write!(
             out,
             " Q {} {} {} {} mods={} fwd={} bck={}",
@@ -353,6 +403,7 @@ pub fn handle(op: &str, a: &[&str]) -> Option<String> {
         "siqs_select" => siqs_select(a),
         "mpqs_poly" => mpqs_poly(a),
         "mpqs_batchinv" => mpqs_batchinv(a),
+        "mpqs_block" => mpqs_block(a),
         "qs_roots" => qs_roots(a),
         _ => None,
     }
